@@ -2,6 +2,8 @@ use crate::idmap::{ExternalId, I2eRecord, IdMap, InternalNodeId, LabelId};
 use std::sync::Mutex;
 
 pub(crate) fn read_i2e_snapshot(idmap: &Mutex<IdMap>) -> Vec<I2eRecord> {
+    #[cfg(nervusdb_verif)]
+    crate::verif::touch("idmap");
     idmap.lock().unwrap().get_i2e_snapshot()
 }
 
@@ -9,10 +11,14 @@ pub(crate) fn lookup_internal_node_id(
     idmap: &Mutex<IdMap>,
     external_id: ExternalId,
 ) -> Option<InternalNodeId> {
+    #[cfg(nervusdb_verif)]
+    crate::verif::touch("idmap");
     idmap.lock().unwrap().lookup(external_id)
 }
 
 pub(crate) fn read_i2l_snapshot(idmap: &Mutex<IdMap>) -> Vec<Vec<LabelId>> {
+    #[cfg(nervusdb_verif)]
+    crate::verif::touch("idmap");
     idmap.lock().unwrap().get_i2l_snapshot()
 }
 
